@@ -252,6 +252,21 @@ func c04Scenarios(tier string) []*Scenario {
 		sc.TickBudget = 3
 		sc.Procs["a"].Hold = func(w *World, pc int) bool { return w.lastStat["v"] != "Launched" }
 	}
+	// the same daemon victim caught while its launcher is still running (Launching): the launcher exits only after
+	// the stop has been requested
+	{
+		v := ok("v")
+		v.Extra = []string{"is_daemon: true", "shutdown:", "  command: \"stop-v\"", "  timeout_seconds: 2"}
+		sc := add([]GNode{eof, v})
+		sc.ID += "-daemon-launching"
+		if sc.Aux == nil {
+			sc.Aux = map[string][]string{}
+		}
+		sc.Aux["stop-v"] = []string{"ok"}
+		sc.TickBudget = 3
+		sc.Procs["a"].Hold = func(w *World, pc int) bool { return w.launches["v#0"] == 0 }
+		sc.Procs["v"].Hold = func(w *World, pc int) bool { return w.lastStat["v"] != "Terminating" }
+	}
 	// trigger kind x victim kind grid: the code must always be that of the trigger
 	{
 		trig := func(kind string) []GNode {
